@@ -11,7 +11,7 @@
                 (active walks with arrival direction) in the graph without the exposure's out-arrows
    valid_specb= its executable rendering (closure over walk states); valid_pathb = the textbook
                 path-by-path rendering (simple paths of the skeleton, collider / non-collider test). *)
-From Coq Require Import List Arith Bool PeanoNat Relations.
+From Coq Require Import List Arith Bool PeanoNat Relations NArith.
 Import ListNotations.
 
 (* ------------------------------------------------------------------ transitive closure (Warshall) *)
@@ -176,13 +176,13 @@ Definition adjustment_sets_with (old : bool) (g : graph) (x y : nat) : list (lis
 Definition adjustment_sets := adjustment_sets_with false.
 Definition adjustment_sets_old := adjustment_sets_with true.
 
-(* `[s for s in valid if len(s) == len(min(valid, key=len))]`; min() of an empty list raises *)
+(* `[s for s in valid if len(s) == len(min(valid, key=len))]` (an empty `valid` gives [] without evaluating min) *)
 Definition min_len (s0 : list nat) (rest : list (list nat)) : nat :=
   fold_left (fun m s => Nat.min m (length s)) rest (length s0).
-Definition minimal_of (vs : list (list nat)) : option (list (list nat)) :=
+Definition minimal_of (vs : list (list nat)) : list (list nat) :=
   match vs with
-  | [] => None
-  | s0 :: rest => Some (filter (fun s => length s =? min_len s0 rest) vs)
+  | [] => []
+  | s0 :: rest => filter (fun s => length s =? min_len s0 rest) vs
   end.
 Definition minimal_adjustment_sets (g : graph) (x y : nat) := minimal_of (adjustment_sets g x y).
 
@@ -286,17 +286,37 @@ Definition all_orient5 : list (list nat) := orient_vectors 9.
 
 (* ------------------------------------------------------------------ canonical output for the harness *)
 Definition flat_edges (es : list (nat * nat)) : list (list nat) := map (fun e => [fst e; snd e]) es.
-Definition opt_sets (o : option (list (list nat))) : bool * list (list nat) :=
-  match o with Some l => (true, l) | None => (false, []) end.
-
-Definition undirected_reach (g : graph) (u : nat) : list nat :=
-  tc Nat.eqb (nodes g) (fun a => filter (uadj (edges g) a) (nodes g)) u.
+Definition undirected_reach (g : graph) : nat -> list nat :=
+  tc Nat.eqb (nodes g) (fun a => filter (uadj (edges g) a) (nodes g)).
 Definition path_sets (g : graph) (x y : nat) : list (list nat) := filter (valid_pathb g x y) (candidates g x y).
+
+(* compact output (printing dominates the evaluation otherwise): a node set as a bit mask over node numbers,
+   a family of candidate sets as a bit mask over positions in the candidate list *)
+Definition mask (l : list nat) : N := fold_left (fun a v => N.lor a (N.shiftl 1%N (N.of_nat v))) l 0%N.
+Definition admit_mask (f : list nat -> bool) (cands : list (list nat)) : N :=
+  fst (fold_left (fun ab Z => ((if f Z then N.lor (fst ab) (snd ab) else fst ab), N.double (snd ab))) cands (0%N, 1%N)).
+Definition list_eqb (a b : list nat) : bool := (length a =? length b) && forallb (fun p => fst p =? snd p) (combine a b).
+Definition sel_mask (sel cands : list (list nat)) : N := admit_mask (fun Z => existsb (list_eqb Z) sel) cands.
 
 (* one correspondence case: the program the implementation ran, and the list it reported *)
 Definition case_out (x y : nat) (prog : list op) (impl_sets : list (list nat)) :=
   let g := run_prog x y prog in
+  let ns := nodes g in
+  let es := edges g in
+  let R := reach_tbl ns es in
+  let RH := reach_tbl ns (drop_out x es) in
+  let cands := candidates g x y in
+  let alg := filter (valid_core false R ns es x y) cands in
+  let UR := undirected_reach g in
   (trace_prog x y (init_graph x y) prog,
-   adjustment_sets g x y, spec_sets g x y, adjustment_sets_old g x y, path_sets g x y,
-   opt_sets (minimal_adjustment_sets g x y), opt_sets (minimal_of impl_sets),
-   map (descendants g) (nodes g), map (ancestors g) (nodes g), map (undirected_reach g) (nodes g)).
+   cands,
+   [sel_mask alg cands;
+    admit_mask (valid_spec_core R RH ns es x y) cands;
+    admit_mask (valid_core true R ns (edges_view g) x y) cands;
+    admit_mask (valid_path_core R RH ns es x y) cands;
+    sel_mask (minimal_of alg) cands;
+    sel_mask (minimal_of impl_sets) cands;
+    N.of_nat (length (minimal_of impl_sets))],
+   map (fun v => mask (R v)) ns,
+   map (fun t => mask (filter (fun v => mem t (R v)) ns)) ns,
+   map (fun v => mask (UR v)) ns).
